@@ -473,6 +473,179 @@ theorem hook_cancel_removes_exactly_its_own_entry (st : St) (id : Nat) (hn : (st
   ⟨removeHook_not_mem id st.hooks hn, removeHook_keeps id st.hooks, removeHook_sublist id st.hooks⟩
 
 
+/-! ## A.4 One hook value, several registrations
+
+A registration (`RegisteredHook`, `Hook` in the model) is a list entry with its own identity and its own query; the
+hook value it was made with (`obj`, with its methods) may be shared by any number of them. All hook theorems above
+quantify over list entries, i.e. over registrations. The ones here say it in so many words. -/
+
+/-- **`RegisterHook` always makes a new entry.** With a well-formed query it appends the registration to the list and
+    succeeds — whatever is registered already, in particular other registrations of the same hook value, with the
+    same or with another query. (The statement shape of `RegisterHook` — lock, append, return the new registration,
+    nothing else — is regenerated from the source; anything else fails the extraction.) -/
+theorem register_hook_makes_its_own_entry (st : St) (h : Hook) (hq : h.q.bad = false) :
+    PB.Gen.Subs.registerHookAlwaysAppends = true ∧
+    (step st (.regHook h)).1.hooks = st.hooks ++ [h] ∧ (step st (.regHook h)).2.res = .ok none ∧
+    (∀ g ∈ st.hooks, g ∈ (step st (.regHook h)).1.hooks) := by
+  refine ⟨rfl, ?_, ?_, ?_⟩ <;> simp [step, hq]
+  intro g hg; exact Or.inl hg
+
+/-- **Each registration of a hook value is called by its own query.** `h1` and `h2` are two registrations of the same
+    hook value (`h1.obj = h2.obj`; any queries), `h1` before `h2` in the list. Whether `h2` is called depends on `h2`'s
+    own query and the record as the hooks before it left it (`r1`) — not on whether `h1`'s query matched, was called,
+    or replaced the record: called iff `h2` declares the phase and `h2.q` matches `r1`, a veto of that call ends the
+    operation with the hook's error. -/
+theorem registrations_of_one_hook_value_are_called_independently (ph : Phase) (uses : Hook → Bool)
+    (f : Hook → Rec → HookRes) (pre mid post : List Hook) (h1 h2 : Hook) (_hobj : h1.obj = h2.obj)
+    (r : Rec) (same : Bool) (cs1 : List Call) (r1 : Rec) (s1 : Bool)
+    (hpre : runRec ph uses f (pre ++ h1 :: mid) r same = (cs1, .ok (r1, s1))) :
+    runRec ph uses f (pre ++ h1 :: mid ++ h2 :: post) r same =
+      if uses h2 && h2.q.matches r1 then
+        match f h2 r1 with
+        | .veto c => (cs1 ++ [⟨h2.id, ph, r1.key, some r1, .veto c⟩], .error c)
+        | .pass => (cs1 ++ ⟨h2.id, ph, r1.key, some r1, .pass⟩ :: (runRec ph uses f post r1 s1).1, (runRec ph uses f post r1 s1).2)
+        | .replace r' =>
+          (cs1 ++ ⟨h2.id, ph, r1.key, some r1, .replace r'⟩ :: (runRec ph uses f post r' false).1,
+           (runRec ph uses f post r' false).2)
+      else (cs1 ++ (runRec ph uses f post r1 s1).1, (runRec ph uses f post r1 s1).2) := by
+  have := hook_called_iff_matching ph uses f (pre ++ h1 :: mid) post h2 r same cs1 r1 s1 hpre
+  simpa [List.append_assoc] using this
+
+/-- … the same for the pre-get phase (by key). -/
+theorem registrations_of_one_hook_value_are_called_independently_pre_get (pre mid post : List Hook) (h1 h2 : Hook)
+    (_hobj : h1.obj = h2.obj) (key : String) (cs1 : List Call)
+    (hpre : runPreGet (pre ++ h1 :: mid) key = (cs1, none)) :
+    runPreGet (pre ++ h1 :: mid ++ h2 :: post) key =
+      if h2.usesPreGet && h2.q.keyOk key then
+        match h2.preGet key with
+        | some c => (cs1 ++ [⟨h2.id, .preGet, key, none, .veto c⟩], some c)
+        | none => (cs1 ++ ⟨h2.id, .preGet, key, none, .pass⟩ :: (runPreGet post key).1, (runPreGet post key).2)
+      else (cs1 ++ (runPreGet post key).1, (runPreGet post key).2) := by
+  have := pre_get_hook_called_iff_matching (pre ++ h1 :: mid) post h2 key cs1 hpre
+  simpa [List.append_assoc] using this
+
+/-- **Cancelling one registration leaves the other registrations of that hook value alone.** With distinct
+    registration identities: after `Cancel` of `h1`, `h1` is out of the list, every other registration — also one of
+    the same hook value, with the same query object or another — is still registered, in the same order. -/
+theorem cancel_of_one_registration_keeps_the_others_of_that_hook_value (st : St) (h1 h2 : Hook)
+    (hn : (st.hooks.map (·.id)).Nodup) (_m1 : h1 ∈ st.hooks) (m2 : h2 ∈ st.hooks) (_hobj : h1.obj = h2.obj)
+    (hne : h2.id ≠ h1.id) :
+    h1.id ∉ (step st (.cancelHook h1.id)).1.hooks.map (·.id) ∧ h2 ∈ (step st (.cancelHook h1.id)).1.hooks ∧
+    ((step st (.cancelHook h1.id)).1.hooks).Sublist st.hooks := by
+  obtain ⟨a, b, c⟩ := hook_cancel_removes_exactly_its_own_entry st h1.id hn
+  exact ⟨a, b h2 m2 hne, c⟩
+
+/-- Non-vacuity: one guard hook value (vetoes every put it is asked about) registered for the prefix `a/` and again
+    for `b/`. A put below `b/` is vetoed by the second registration and stores nothing; after the *second*
+    registration is cancelled a put below `a/` is still vetoed (first registration) and one below `b/` goes through. -/
+example :
+    let guard (id : Nat) (pre : String) : Hook :=
+      { id := id, obj := 7, q := ⟨false, fun k => k.startsWith pre, fun _ => true⟩, usesPreGet := false, usesPostGet := false,
+        usesPrePut := true, preGet := fun _ => none, postGet := fun _ => .pass, prePut := fun _ => .veto 3 }
+    let li : Opts := { loc := true, int := true }
+    let ops : List Op := [.regHook (guard 0 "a/"), .regHook (guard 1 "b/"), .put li ⟨"b/x", 1, "foo", {}⟩ false,
+      .cancelHook 1, .put li ⟨"a/x", 1, "foo", {}⟩ false, .put li ⟨"b/y", 2, "foo", {}⟩ false]
+    (run (St.init ⟨.hashmap, false⟩) ops).2.map (·.res) =
+      [.ok none, .ok none, .error (.veto 3), .ok none, .error (.veto 3), .ok none] ∧
+    (run (St.init ⟨.hashmap, false⟩) ops).1.store.map (·.1) = ["b/y"] ∧
+    (run (St.init ⟨.hashmap, false⟩) ops).1.hooks.map (·.id) = [0] := by
+  simp [run, step, St.init, ifacePut, putDenied, Opts.all, newForm, applyOpts, putPrepared, ctrlPut, runPrePut, runRec,
+    Query.matches, storeWrite, Cfg.putForm, notify, notifyLoop, removeHook, sPut, sErase]
+
+/-! ## A.5 The runtime registry as injected database
+
+`runtime.Registry`: providers are registered (`Register` hands out one push function per provider), the registry is
+injected as a database (`InjectAsDatabase`), interfaces subscribe, providers push — in any order the callers like.
+`rstep` / `rrun` are the registry in front of its database; `St.initReg` a fresh registry. -/
+
+/-- Once injected, the database operations on a registry are the controller's: everything in part A holds for them. -/
+theorem registry_db_operations_are_the_controllers (st : St) (op : Op) (hi : st.injected = true) :
+    rstep st (.db op) = step st op := rstep_db_injected op hi
+
+/-- **A push after injection is delivered, whatever the order of `Register` and `InjectAsDatabase` was.** For every
+    registered provider — registered before or after the injection (`p.injAtReg` is arbitrary) — a call of its push
+    function on an injected registry is a `PushUpdate` on the controller: the record is recorded as written and offered
+    to every listed subscription (`Delivered`), whatever its key is (inside or outside the provider's own prefix). -/
+theorem registry_push_delivers_once_injected (st : St) (id : Nat) (p : Prov) (r : Rec)
+    (hp : st.provs.find? (·.id == id) = some p) (hi : st.injected = true) :
+    Delivered st (rstep st (.push id r)).1 r ∧ (rstep st (.push id r)).1 = (step st (.push r)).1 := by
+  have h : (rstep st (.push id r)).1 = notify st r := by
+    simp [rstep, hp, pushTarget, PB.Gen.Subs.pushReadsControllerAtPush, hi]
+  rw [h]
+  exact ⟨⟨rfl, notify_subs st r, rfl⟩, rfl⟩
+
+/-- … over histories: take any sequence of registry calls from a fresh registry in which `InjectAsDatabase` occurs
+    somewhere — before or after the `Register` of the provider, before or after earlier pushes, with any database
+    operations in between. Afterwards a push of any registered provider is delivered to every listed subscription. -/
+theorem registry_push_delivered_whatever_the_order (ops : List ROp) (id : Nat) (p : Prov) (r : Rec)
+    (hinj : ROp.inject ∈ ops) (hp : (rrun St.initReg ops).1.provs.find? (·.id == id) = some p) :
+    Delivered (rrun St.initReg ops).1 (rstep (rrun St.initReg ops).1 (.push id r)).1 r :=
+  (registry_push_delivers_once_injected _ id p r hp (rrun_inject_mem ops _ hinj)).1
+
+/-- Injection is permanent and happens at most once: a second `InjectAsDatabase` answers `ErrInjected` and changes
+    nothing; no later call of any kind takes the controller away again; providers stay registered. -/
+theorem registry_injection_is_permanent (st : St) (ops : List ROp) (hi : st.injected = true) :
+    (rrun st ops).1.injected = true ∧ rstep st .inject = (st, { res := .error .injected }) ∧
+    (∀ op p, p ∈ st.provs → p ∈ (rstep st op).1.provs) :=
+  ⟨rrun_injected_mono ops st hi, by simp [rstep, hi], fun op _ hp => rstep_provs_mono op hp⟩
+
+/-- **Before the injection nothing can be lost:** there is no controller, so `Subscribe`, `RegisterHook` and every
+    read or write through an interface fail and change nothing; hence in every state a fresh registry reaches while
+    it is not injected there is no subscription (active or cancelled) and no hook — and a push then reaches nobody
+    and changes nothing. -/
+theorem registry_not_injected_has_no_subscribers (ops : List ROp) (hn : (rrun St.initReg ops).1.injected = false) :
+    (rrun St.initReg ops).1.subs = [] ∧ (rrun St.initReg ops).1.closed = [] ∧ (rrun St.initReg ops).1.hooks = [] ∧
+    (∀ id r, (rstep (rrun St.initReg ops).1 (.push id r)).1 = (rrun St.initReg ops).1) ∧
+    (∀ op, (rstep (rrun St.initReg ops).1 (.db op)).1 = (rrun St.initReg ops).1) := by
+  have hq := Quiet_rrun ops St.initReg (by intro _; simp [St.initReg]) hn
+  refine ⟨hq.1, hq.2.1, hq.2.2.1, ?_, fun op => (rstep_db_not_injected op hn).1⟩
+  intro id r
+  simp only [rstep]
+  split
+  · rfl
+  · simp [pushTarget, PB.Gen.Subs.pushReadsControllerAtPush, hn]
+
+/-- **Exact delivery for the registry's database,** over all histories of registry calls and database operations from
+    a fresh registry: every listed subscription has been offered exactly the successful writes and the pushes — of
+    all providers — made since it was subscribed that match its query and that its subscriber may see, each once, in
+    order; a cancelled one exactly those up to its `Cancel`. -/
+theorem registry_delivery_exact (ops : List ROp) :
+    (∀ s ∈ (rrun St.initReg ops).1.subs,
+        s.attempts.map (·.1) = ((rrun St.initReg ops).1.writes.drop s.since).filter s.visible) ∧
+    (∀ p ∈ (rrun St.initReg ops).1.closed,
+        p.1.attempts.map (·.1) = (((rrun St.initReg ops).1.writes.take p.2).drop p.1.since).filter p.1.visible) := by
+  have h := Inv_rrun ops St.initReg (by constructor <;> intro x hx <;> simp [St.initReg] at hx)
+  constructor
+  · intro s hs
+    have := (h.1 s hs).2.2.1
+    rwa [List.take_length] at this
+  · intro p hp
+    exact (h.2 p hp).2.2.1
+
+/-- `Registry.Register` as written: refused (`ErrKeyTaken`, nothing changes) when a provider sits on a prefix of the
+    new key or on the key itself, or — for a new prefix — anywhere below it; otherwise the provider is added, and
+    nothing else changes: subscriptions, hooks, storage and the injection state are untouched. -/
+theorem registry_register (st : St) (id : Nat) (key : String) :
+    (provTaken st.provs key = true → rstep st (.register id key) = (st, { res := .error .taken })) ∧
+    (provTaken st.provs key = false →
+      (rstep st (.register id key)).1 = { st with provs := st.provs ++ [⟨id, key, st.injected⟩] } ∧
+      (rstep st (.register id key)).2.res = .ok none) := by
+  constructor <;> intro h <;> simp [rstep, h]
+
+/-- Non-vacuity: the provider is registered first, the registry injected afterwards (the order `runtime`'s own module
+    does not use); a subscriber on everything, one push through the early provider's function — also for a key
+    outside the provider's prefix — : both are in the feed. And a subscription attempt before the injection fails. -/
+example :
+    let q : Query := ⟨false, fun _ => true, fun _ => true⟩
+    let li : Opts := { loc := true, int := true }
+    let ops : List ROp := [.register 0 "a/", .db (.subscribe 9 li q), .push 0 ⟨"a/x", 1, "foo", {}⟩, .inject,
+      .db (.subscribe 0 li q), .push 0 ⟨"a/x", 2, "foo", {}⟩, .push 0 ⟨"zz", 3, "bar", {}⟩]
+    (rrun St.initReg ops).1.subs.map (fun s => (s.id, s.buf)) = [(0, [⟨"a/x", 2, "foo", {}⟩, ⟨"zz", 3, "bar", {}⟩])] ∧
+    (rrun St.initReg ops).2.map (·.res) = [.ok none, .error .notinjected, .ok none, .ok none, .ok none, .ok none, .ok none] := by
+  simp [rrun, rstep, step, St.initReg, provTaken, longestPrefix, isPrefixKey, pushTarget, PB.Gen.Subs.pushReadsControllerAtPush,
+    notify, notifyLoop, PB.Gen.Subs.notifySentExits, Sub.visible, permitted,
+    PB.Gen.Subs.checkPermission, Query.matches, PB.Gen.Subs.feedCap]
+
 /-! ## B. Interleavings of writers, `Subscribe` and `Cancel` (any number of each)
 
 `Reach wants st`: `st` is reachable from the initial state by atomic steps of the lock protocol.
